@@ -10,7 +10,9 @@ import pandas as pd
 from .. import proto
 from ..core import Check, Problem, register
 
-TOL = 1e-9
+# measured on the clean tree (review R1, 1500 generated cases): max |impl - exact| = 2.2e-16 over gamma / bound / losses /
+# config values; 1e-12 is > 1000x that and the agreed floor for binary64 paths
+TOL = 1e-12
 MOMENTS = {
     "dp": "DemographicParity",
     "tpr": "TruePositiveRateParity",
@@ -248,7 +250,9 @@ class CHECK(Check):
                   "affine in the predictor (gamma of any mixture with weights summing to 1 is the mixture of the gammas); "
                   "a constant predictor c has (r-1)*c in every entry; the clipped losses lie in the loss object's own "
                   "[min, max] for ALL bounds on numpy arrays and on pandas Series (two lifted clip semantics, finding F21 "
-                  "witness), and so does every BoundedGroupLoss.gamma entry. Tie: translator-lifted expressions "
+                  "witness), and so does every BoundedGroupLoss.gamma entry; gamma_exact (whole first sentence in one statement), "
+                  "index_denominators_pos (no x/0 on an index entry), rate instances for TPR/FPR/EO/DP/ERP with and without "
+                  "strata against BaseMetrics, C06X instances discharging the selector hypotheses for the real event rules. Tie: translator-lifted expressions "
                   "(Generated/MomentsSrc.lean, Generated/LossRange.lean) + Moment / loss objects vs the compiled Lean "
                   "model on generated datasets; independent Fraction oracle decides violations.")
     design_ref = "DESIGN.md section 4, C06"
@@ -257,7 +261,7 @@ class CHECK(Check):
     quick_budget_s = 120
     thorough_budget_s = 900
     workers_thorough = 4
-    rule = ("binary datasets of 4..30 rows, 2..4 groups (str or int valued), optional control feature with 1..3 strata, "
+    rule = ("binary datasets of 4..30 rows, 2..4 groups (str or int valued; every group occurs), slack >= 0, optional control feature with 1..3 strata, "
             "the five parity moments x {difference_bound, ratio_bound in {1,1/2,4/5,1/4} with slack, default bound}, "
             "hard or dyadic soft predictions in [0,1], containers list/ndarray/float ndarray/Series/DataFrame, predictor "
             "output (n,), (n,1) or Series; plus BoundedGroupLoss/MeanLoss with Square/Absolute/ZeroOne loss on dyadic "
@@ -268,7 +272,7 @@ class CHECK(Check):
             "label/group/stratum assignments of 4 rows for TPR/FPR/EO")
     explanation = ("theorems over Model/Moments.lean (arithmetic lifted from the source into Generated/MomentsSrc.lean); "
                    "correspondence: index (incl. order), gamma, bound of the loaded Moment vs the compiled driver within "
-                   "1e-9; oracle: per-(event, group) means in Fractions; for ratio 1 and hard predictions the + entries are "
+                   "1e-12 absolute; oracle: per-(event, group) means in Fractions; for ratio 1 and hard predictions the + entries are "
                    "also compared with MetricFrame(by_group - overall) of the matching rate computed by fairlearn.metrics")
     trusted = ("pandas groupby/concat ordering is modelled as 'sorted observed pairs, + block then - block' (checked by "
                "correspondence)",
@@ -770,7 +774,7 @@ class CHECK(Check):
                 for g, v in zip(gs, o["gamma"]):
                     idx = [i for i in range(len(ys)) if case["g"][i] == g]
                     mean_ser = sum(o["ser"][i] for i in idx) / len(idx)
-                    if not close(v, mean_ser, 1e-9 * (1 + abs(mean_ser))):
+                    if not close(v, mean_ser, TOL * (1 + abs(mean_ser))):
                         probs.append(Problem("property", f"BoundedGroupLoss.gamma[{g}] = {v!r} is not the mean {mean_ser!r} of "
                                                          f"{where}.eval over the group's rows", "C06.bgl_gamma"))
                         break
@@ -836,7 +840,9 @@ class CHECK(Check):
                 if any(int(v) != lab for v in case["y"]):
                     tags.append("F3-shape(tpr/fpr+control+rows-outside-class)")
             if isinstance(o, dict) and isinstance(o.get("metricframe"), list) and hard and (case["rb"] in (None, "1")):
-                tags.append("metricframe-compared")
+                mfv = o["metricframe"]
+                # a MetricFrame error is recorded, not judged: make the skipped comparison visible in the evidence
+                tags.append("metricframe-exc(not-compared)" if mfv and mfv[0] == "exc" else "metricframe-compared")
             nontriv = isinstance(o, dict) and bool(o.get("index"))
         elif kind == "loss":
             lo, hi = F(case["lo"]), F(case["hi"])
